@@ -49,3 +49,22 @@ def bipartite_match(left, right, ok):
         if try_(i, set()):
             size += 1
     return size, match_r
+
+
+def build_input(out, spec, label="input"):
+    """Builds the Sequence of a seqspec and verifies the harness' own precondition: its raw content is well-formed
+    and has exactly the notes of the spec. If construction itself raises or deviates (only possible when the code
+    under test is broken in a way that is another property's business) the case is marked inconclusive — neither
+    a verdict nor a harness crash. Returns (seq, events, duration, notes) or None."""
+    try:
+        seq = build.sequence(spec)
+        ev, d = O.seq_events(seq)
+        ns, an = O.notes(ev)
+    except Exception as e:  # noqa
+        out.inconclusive = f"{label}-construction-raised:{type(e).__name__}"
+        return None
+    want = sorted(tuple(n) for n in spec.get("notes", []))
+    if an or O.overlaps(ns) or sorted(ns) != want:
+        out.inconclusive = f"{label}-construction-deviates"
+        return None
+    return seq, ev, d, ns
